@@ -67,7 +67,8 @@ type TreeShapeListener struct {
 	rest_queryparams_len  []int
 	rest_urlparams_len    []int
 	http_path_query_param string
-	stmt_scope            []interface{} // Endpoint, if, if_else, loop
+	stmt_scope            []interface{}     // Endpoint, if, if_else, loop
+	stmt_scope_last       []*sysl.Statement // per scope: its last statement when the scope was entered
 	expr_stack            []*sysl.Expr
 	opmap                 map[string]sysl.Expr_BinExpr_Op
 	currentMultiLineAnno  []string
@@ -1585,17 +1586,21 @@ func (s *TreeShapeListener) TopExpr() *sysl.Expr {
 
 func (s *TreeShapeListener) pushScope(scope interface{}) {
 	s.stmt_scope = append(s.stmt_scope, scope)
+	// a re-opened endpoint already holds the statements of its earlier declarations
+	s.stmt_scope_last = append(s.stmt_scope_last, s.lastStatement())
 }
 
 func (s *TreeShapeListener) popScope() {
+	l := len(s.stmt_scope) - 1
 	top := s.lastStatement()
-	if top != nil {
+	// only a statement added inside this scope ends where the scope ends
+	if top != nil && top != s.stmt_scope_last[l] {
 		top.SourceContext.End = s.lastEnd //nolint:staticcheck
 		top.SourceContexts[len(top.SourceContexts)-1].End = s.lastEnd
 	}
 
-	l := len(s.stmt_scope) - 1
 	s.stmt_scope = s.stmt_scope[:l]
+	s.stmt_scope_last = s.stmt_scope_last[:l]
 }
 
 func (s *TreeShapeListener) peekScope() interface{} {
